@@ -185,6 +185,11 @@ func runNGAPSweep(ctx *Ctx, prop string) {
 			case !refper.Equal(back, node):
 				r.Violate("canonical/value-differs/"+lc, cs, "decoded vs original: "+refper.FirstDiff(back, node, ""), replay)
 			default:
+				if ngapDirectReencodeErr != nil {
+					r.Violate("canonical/decoded-value-refused-by-the-encoder/"+lc, cs, ngapDirectReencodeErr.Error(), replay)
+				} else if !bytes.Equal(ngapDirectReencode, refB) {
+					r.Violate("canonical/decoded-value-reencodes-differently/"+lc, cs, fmt.Sprintf("first difference at octet %d: %s vs %s", firstDiff(ngapDirectReencode, refB), shortHex(ngapDirectReencode), shortHex(refB)), replay)
+				}
 				re, rerr, rp := enc(back)
 				if rp || rerr != nil {
 					r.Violate("canonical/reencode-failed/"+lc, cs, fmt.Sprint(rerr), replay)
